@@ -1,5 +1,6 @@
 import ScriggoV.Model.TypeCheck
 import ScriggoV.Model.Terminating
+import ScriggoV.Model.Assignable
 /-! Line protocol of C03: `prog <n> <stmt>…` in prefix notation (see go/props/c03/ast.go).
 Answer: `ok <id>:<type>[:<value>] …` (names in order of declaration), `rej <rule>`,
 `outside <why>`. Anything unparsable → `none` (`bad-op`). -/
@@ -221,7 +222,60 @@ def parseTC : Nat → Nat → List String → Option (TClauses × List String)
     | [] => none
 end
 
+/-! `asg <value> <type>`: assignability in the universe of Model/Assignable.lean. Types in prefix
+notation: `b` `i` `s` (bool int string), `l <n>` (opaque literal), `if <k> <method>…`,
+`p <T>`, `sl <T>`, `nm <id> <T> <kv> <method>… <kp> <method>…`. Values: `ub` (untyped boolean),
+`nil`, `t <T>`. Answer `ok true` / `ok false`. -/
+def takeN : Nat → List String → Option (List String × List String)
+  | 0, toks => some ([], toks)
+  | k + 1, t :: rest => do
+    let (xs, rest) ← takeN k rest
+    pure (t :: xs, rest)
+  | _ + 1, [] => none
+
+def parseATy : Nat → List String → Option (ScriggoV.Assignable.ATy × List String)
+  | 0, _ => none
+  | fuel + 1, toks =>
+    match toks with
+    | "b" :: rest => some (.bool, rest)
+    | "i" :: rest => some (.int, rest)
+    | "s" :: rest => some (.string, rest)
+    | "l" :: n :: rest => do let k ← n.toNat?; pure (.lit k, rest)
+    | "if" :: n :: rest => do
+      let k ← n.toNat?
+      let (ms, rest) ← takeN k rest
+      pure (.iface ms, rest)
+    | "p" :: rest => do let (e, rest) ← parseATy fuel rest; pure (.ptr e, rest)
+    | "sl" :: rest => do let (e, rest) ← parseATy fuel rest; pure (.slice e, rest)
+    | "nm" :: n :: rest => do
+      let id ← n.toNat?
+      let (u, rest) ← parseATy fuel rest
+      match rest with
+      | kv :: rest => do
+        let k ← kv.toNat?
+        let (vms, rest) ← takeN k rest
+        match rest with
+        | kp :: rest => do
+          let k ← kp.toNat?
+          let (pms, rest) ← takeN k rest
+          pure (.named id u vms pms, rest)
+        | [] => none
+      | [] => none
+    | _ => none
+
+def parseAVal (toks : List String) : Option (ScriggoV.Assignable.AVal × List String) :=
+  match toks with
+  | "ub" :: rest => some (.untypedBool, rest)
+  | "nil" :: rest => some (.nil, rest)
+  | "t" :: rest => do let (t, rest) ← parseATy (rest.length + 1) rest; pure (.typed t, rest)
+  | _ => none
+
 def handle : List String → Option String
+  | "asg" :: toks => do
+    let (v, rest) ← parseAVal toks
+    let (t, rest) ← parseATy (rest.length + 1) rest
+    if !rest.isEmpty then none
+    else pure (if v.assignableTo t then "ok true" else "ok false")
   | "prog" :: n :: toks => do
     let k ← n.toNat?
     let ss ← parseStmts k toks
